@@ -152,6 +152,17 @@ theorem planck_flux_unit_independent {K : Type} [Field K] [CharZero K] (expf : K
   have h2 := waveTo_ne_zero (K := K) u .m
   cases v <;> simp only [planckRadiance, fluxTo] <;> field_simp <;> simp
 
+/-- `vegaflux` (translated from its own source lines: zero-point table, Jy → W m⁻² Hz⁻¹ → W m⁻² m⁻¹ → photons, unit split):
+whatever (waveunit, valueunit) is requested, the flux is the (m, photlam) flux converted by the generated tables — per metre
+to per `wu` and photlam to `vu` at the band's wavelength — and the wavelength is the band's wavelength in `wu` -/
+theorem vegaflux_unit_consistent {K : Type} [Field K] [CharZero K] (H C : K) :
+    ∀ (band : Band) (wu : WUnit) (vu : FUnit),
+      (vegaflux H C band wu vu).1 = fluxTo .photlam vu (vegaflux H C band .m .photlam).1 (vegaWave band) H C / waveTo .m wu ∧
+      (vegaflux H C band wu vu).2 = vegaWave band * waveTo .m wu := by
+  intro band wu vu
+  have h1 : (waveTo .m .m : K) = 1 := waveTo_self .m
+  cases vu <;> simp only [vegaflux, fluxTo, h1, div_one, and_self, and_true]
+
 /-- non-vacuity: 700 nm → µm on a `wlam` density, concrete numbers -/
 example : toWave .um ⟨[500, 700], [2, 4], .nm, some .wlam⟩ = ⟨[1/2, 7/10], [2000, 4000], .um, some .wlam⟩ := by
   simp [toWave_eq, waveTo]; norm_num
